@@ -191,7 +191,30 @@ def run(prog, tier):
             chk.decide(filled, 'complete-initialisation', f['unit'], name, field, '%s:%d' % (f['rel'], n['ln']),
                        '%s is allocated with %s and never filled in this function: the caller receives recycled heap content, so results '
                        'depend on the call history' % (field, rhs['callee']), why='filled (loop / memcpy) or zero-allocated')
+    failed_mutators(prog, chk, tier)
     return chk
+
+
+def failed_mutators(prog, chk, tier):
+    """(5) The only permitted modification of the library's tables is an explicit insertion into the built-in crystal collection.  A
+    mutator call that FAILS is not an insertion: if it returned with part of its work left in the collection, later queries would
+    depend on a failed history.  The per-exit analysis is the one of rules/c14.py (failure-atomic), read here for the built-in array."""
+    from rules import c14
+    shim = Check('C16', tier, 'other', '', [], [])
+    c14.extend(prog, shim)
+    c14.add_crystal(prog, shim)
+    c14.read_file(prog, shim)
+    n = 0
+    for rule, inst, why, loc in shim.held:
+        if rule == 'failure-atomic':
+            n += 1
+            chk.ok('failed-mutator-leaves-no-trace', inst, why, loc)
+    for v in shim.violations:
+        if v['rule'] == 'failure-atomic':
+            n += 1
+            chk.bad('failed-mutator-leaves-no-trace', v['unit'], v['function'], v['instance'], v['loc'],
+                    'a failing call of a crystal mutator leaves the collection modified (also the built-in one, which every later query reads): ' + v['message'])
+    chk.floor('failure exits of the crystal mutators', n, 10)
 
 
 def locale_bracket(chk, f):
